@@ -271,6 +271,46 @@ theorem symbolize_names_nonempty (env : Env σ τ) (hf : ∀ o s, s ≠ [] → e
 
 /-! ### non-vacuity and the two defects of the pinned tree -/
 
+/-- an object tool that opens every file and reports one frame `<unknown>` for every address. -/
+def exTool : ObjTool Unit where
+  openFile _ _ := ((), .ok ())
+  buildID _ := ((), [])
+  sourceLine _ a := ((), .ok [{ func := b!"<unknown>", file := b!"a.c", line := Int.ofNat a, column := 0, startLine := 1 }])
+  close _ := ()
+
+def exEnv : Env Unit Unit where
+  tool := exTool
+  isSourceURL _ := false
+  symz := { symbolzURL := fun _ => [], post := fun _ _ _ => ((), .err "none"), parseLine := fun _ => none }
+  filter _ s := s
+
+/-- a valid profile with a sparse function id (5), a symbolized mapping (1) and an unsymbolized one (2). -/
+def exProfile : Profile :=
+  { (default : Profile) with
+    sampleType := [{ typ := b!"cpu", unit := b!"ns" }]
+    samples := [{ locationIDs := [1, 2], values := [7], label := [(b!"k", [b!"v"])], numLabel := [], numUnit := [] }]
+    mappings := [{ id := 1, start := 4096, limit := 8192, offset := 0, file := b!"/bin/a", buildID := [],
+                   hasFunctions := true, hasFilenames := false, hasLineNumbers := false, hasInlineFrames := false },
+                 { id := 2, start := 8192, limit := 12288, offset := 0, file := b!"/lib/b.so", buildID := [],
+                   hasFunctions := false, hasFilenames := false, hasLineNumbers := false, hasInlineFrames := false }]
+    locations := [{ id := 1, mappingID := 1, address := 4100, lines := [{ functionID := 5, line := 3, column := 0 }], isFolded := false },
+                  { id := 2, mappingID := 2, address := 8200, lines := [], isFolded := false }]
+    functions := [{ id := 5, name := b!"main", systemName := b!"main", filename := b!"m.c", startLine := 1 }] }
+
+-- hypotheses of `symbolize_valid` / `symbolize_respects_has_symbols` / `symbolize_names_nonempty` hold for
+-- a run that really symbolizes: mapping 2 gets a new function (id 6, above the sparse id 5) whose
+-- name `<unknown>` survives demangling; mapping 1 and its location are untouched
+example :
+    exProfile.Valid ∧ (symbolize exEnv b!"local" [] exProfile () ()).wrapped = false ∧
+    (parseMode b!"local").map (fun o => (o.force, o.remote)) = some (false, false) ∧
+    (symbolize exEnv b!"local" [] exProfile () ()).profile.Valid ∧
+    (symbolize exEnv b!"local" [] exProfile () ()).profile.functions.map (fun f => (f.id, f.name)) =
+      [(5, b!"main"), (6, b!"<unknown>")] ∧
+    (symbolize exEnv b!"local" [] exProfile () ()).profile.locations.map (fun l => l.lines.map (·.functionID)) =
+      [[5], [6]] ∧
+    (symbolize exEnv b!"local" [] exProfile () ()).profile.mappings.map (·.hasFunctions) = [true, true] := by
+  decide
+
 -- `adjust_spec`: the extreme arguments of symbolz_test.go's table
 example : adjust 18446744073709551615 1 = none ∧ adjust 9223372036854775808 (-9223372036854775808) = some 0 ∧
     adjust 0 (-1) = none ∧ adjust 9223372036854775808 9223372036854775807 = some 18446744073709551615 := by
